@@ -428,6 +428,12 @@ func runC13(c *engine.Ctx) {
 	// ---- R9 lock order (shared with C16.R11): "no ordering of joins and leaves can bring the server down" — the
 	// controller lock and the group lock are never taken in both orders ----
 	c16LockOrder(c, li, "R9")
+
+	// ---- R10 the group tables are accessed under their locks (shared with C16.R1) ----
+	c16MapsRule(c, li, "R10")
+
+	// ---- R11 the group's route is deleted under the key it was added under (shared with C06.R3) ----
+	checkHostIndexLowered(c, "R11")
 }
 
 // checkCleanupAfterAcquire (C13.R2 second half, also C10.R10): a closure that releases a registration is queued for
